@@ -30,7 +30,7 @@ ASSUMPTIONS = ["single fault per calculation; recovery code (finally/except bodi
                "new columns and value-preserving dtype widening are not violations (counted as benign drift)"]
 REACH_PROBES = ["raised_while_aux_gens_present", "raised_inside__pd2ppc", "raised_inside_solver",
                 "raised_inside__extract_results", "swallowed_by_inner_handler", "natural_failure",
-                "success_path_checked", "injected_fired"]
+                "success_path_checked", "injected_fired", "non_contiguous_index"]
 
 TEMPLATE_W = [("feeder_dcline", 5), ("case9_dcline", 4), ("feeder_all", 4), ("feeder_taptable", 3),
               ("feeder", 2), ("case9", 2), ("b2b", 2), ("ph3", 3), ("feeder_t3w", 2), ("case14", 1),
@@ -154,6 +154,8 @@ def generate(rng, idx, tier):
     for _ in range(rng.randint(0, 5)):
         ol.append(ops.gen_create(rng, ["load", "sgen", "gen", "line", "switch_b", "switch_l", "shunt",
                                        "dcline", "dcline", "bus", "ward", "xward", "impedance", "storage"]))
+    for _ in range(rng.choice([0, 0, 1, 2])):
+        ol.append(ops.gen_drop(rng))         # leaves non-contiguous indices behind
     for _ in range(cfg["n_calc"]):
         for _ in range(rng.randint(0, 3)):
             ol.append(ops.gen_set(rng) if rng.random() < 0.6 else ops.gen_toggle(rng))
@@ -284,6 +286,8 @@ def execute(ep, ctx):
             continue
         if k != "calc":
             st, info = ops.apply_basic(net, op)
+            if st == "ok" and (k == "drop_el" or op.get("gap")):
+                ctx.probe("non_contiguous_index")
             ctx.event(k, op.get("et") or op.get("table"), st)
             ctx.sim["ops"] += 1
             continue
